@@ -192,7 +192,11 @@ def main_check(pid, tier, seed, replay_path=None):
             json.dump(replay, open(rp, 'w'))
             cmd.append(rp)
         log = open(os.path.join(tmp, f'shard{s}.log'), 'w')
-        procs.append((s, out, subprocess.Popen(cmd, stdout=log, stderr=subprocess.STDOUT, cwd=HERE), log))
+        # every shard gets its own numba cache directory: the library's jitted scatter functions are cached on disk
+        # (cache=True) next to the source by default, and many concurrent writers corrupt that index - in the
+        # repository tree that would break the repository's own scatter tests afterwards
+        env = dict(os.environ, NUMBA_CACHE_DIR=os.path.join(tmp, f'numba{s}'))
+        procs.append((s, out, subprocess.Popen(cmd, stdout=log, stderr=subprocess.STDOUT, cwd=HERE, env=env), log))
     dumps, inconclusive = [], []
     deadline = t0 + watchdog
     for s, out, p, log in procs:
